@@ -177,7 +177,10 @@ theorem testEvs_tfrBlock (own : TfrOwn) (k : Kind) (t : Nat) (a : Arg) :
 theorem tfrStep_emits (own : TfrOwn) (inner : σ) (c : Call) :
     ∃ cs, (tfrStep I own inner c).2 = cs.foldl I.step inner ∧ testEvs cs = tfrView (testEvs [c]) := by
   cases c with
-  | add k t a => exact ⟨tfrBlock own k t a, rfl, by simp [testEvs_tfrBlock, tfrView]⟩
+  | add k t a =>
+    refine ⟨tfrBlock own k t a ++ tfrStops own k, rfl, ?_⟩
+    have : testEvs (tfrStops own k) = [] := by unfold tfrStops; split <;> rfl
+    simp [testEvs_append, testEvs_tfrBlock, tfrView, this]
   | startTestRun => exact ⟨[.startTestRun], rfl, rfl⟩
   | stopTestRun => exact ⟨[.stopTestRun], rfl, rfl⟩
   | stop => exact ⟨[.stop], rfl, rfl⟩
